@@ -502,9 +502,31 @@ def _inline_async_body(f, bi, stub, body):
             if pl is not None:
                 up_deref[i] = pl
 
+    # body locals that are nothing but a copy of such an upvar (`let counter = <upvar>` at the top of the async body)
+    alias = {}
+    if up_deref:
+        ndefs = {}
+        for gb in body['blocks']:
+            for st in gb['s']:
+                if st['k'] == 'a' and not st['d'][1]:
+                    ndefs[st['d'][0]] = ndefs.get(st['d'][0], 0) + 1
+            if gb['t']['k'] == 'call' and gb['t'].get('d') and not gb['t']['d'][1]:
+                ndefs[gb['t']['d'][0]] = ndefs.get(gb['t']['d'][0], 0) + 1
+        for gb in body['blocks']:
+            for st in gb['s']:
+                if st['k'] == 'a' and not st['d'][1] and st['r']['k'] == 'use' and ndefs.get(st['d'][0]) == 1:
+                    pl0 = st['r']['o'].get('m') or st['r']['o'].get('c') if isinstance(st['r']['o'], dict) else None
+                    if pl0 and pl0[0] == 1:
+                        pr0 = [e for e in pl0[1] if e != '*']
+                        if len(pr0) == 1 and isinstance(pr0[0], dict) and 'f' in pr0[0] and pr0[0]['f'] in up_deref:
+                            alias[st['d'][0]] = pr0[0]['f']
+
     def mp(p):
         l, proj = p
         proj2 = [({'i': e['i'] + base} if isinstance(e, dict) and 'i' in e else e) for e in proj]
+        if l in alias and proj2 and proj2[0] == '*':
+            x, projx = up_deref[alias[l]]
+            return [x, list(projx) + proj2[1:]]
         if l == 1:
             pr = list(proj2)
             while pr and pr[0] == '*':
